@@ -72,6 +72,13 @@ enum Content {
     GceRelays,
     GceNid,
     PathChangedIdentity,
+    /// the same with a fresh signature key in the new leaf
+    PathIdentityNewSigner,
+    /// an identity-changing update path in a commit that ALSO carries a Remove / an Add / a
+    /// group-data change (so it is not a pure self-update)
+    PathIdentityPlusRemove,
+    PathIdentityPlusAdd,
+    PathIdentityPlusGce,
     Mixed,
     ByReference,
     Empty,
@@ -85,7 +92,7 @@ enum Content {
     SweepQueuedLeave,
 }
 
-const CONTENTS: [Content; 16] = [
+const CONTENTS: [Content; 20] = [
     Content::Add,
     Content::RemoveOther,
     Content::GceAdmins,
@@ -93,6 +100,10 @@ const CONTENTS: [Content; 16] = [
     Content::GceRelays,
     Content::GceNid,
     Content::PathChangedIdentity,
+    Content::PathIdentityNewSigner,
+    Content::PathIdentityPlusRemove,
+    Content::PathIdentityPlusAdd,
+    Content::PathIdentityPlusGce,
     Content::Mixed,
     Content::ByReference,
     Content::Empty,
@@ -153,6 +164,30 @@ fn build(f: &mut Field, sender: usize, content: &Content, rng: &mut Rng) -> Opti
         Content::PathChangedIdentity => {
             // update path whose leaf carries another identity (the victim `other`)
             with_mdk!(m, x => adv::mls_commit(x, &gid, &adv::RawCommit { force_self_update: true, new_identity: Some(opk), ..Default::default() }, false))?.0
+        }
+        Content::PathIdentityNewSigner | Content::PathIdentityPlusRemove | Content::PathIdentityPlusAdd | Content::PathIdentityPlusGce => {
+            // the new identity is the victim's or one nobody holds; the leaf keeps the old signature
+            // key or gets a fresh one
+            let ident = if rng.chance(50) { opk } else { nostr::Keys::generate().public_key() };
+            let new_signer = *content == Content::PathIdentityNewSigner || rng.chance(50);
+            let mut raw = adv::RawCommit { force_self_update: true, new_identity: Some(ident), new_signer, ..Default::default() };
+            match content {
+                Content::PathIdentityPlusRemove => {
+                    named.removes.insert(opk);
+                    raw.removes = vec![opk];
+                }
+                Content::PathIdentityPlusAdd => {
+                    let (kp, pk) = fresh_kp(&mut f.w, rng)?;
+                    named.adds.insert(pk);
+                    raw.adds = vec![kp];
+                }
+                Content::PathIdentityPlusGce => {
+                    named.gd_changed = true;
+                    raw.gce = Some(with_mdk!(f.w.clients[sender].mdk, x => adv::group_data_bytes(x, &gid, |gd| gd.description = b"with a new face".to_vec()))?);
+                }
+                _ => {}
+            }
+            with_mdk!(f.w.clients[sender].mdk, x => adv::mls_commit(x, &gid, &raw, false))?.0
         }
         Content::Mixed => {
             let (kp, pk) = fresh_kp(&mut f.w, rng)?;
